@@ -1,4 +1,262 @@
+//! C01 (and the replay half of C07/C09/C14): executes behaviour records printed by
+//! spec/WowmWire.tla against the public readers and writers of the real crates.
+//!
+//! stdin : {"kind":"codec","id":..,"name":..,"exp":"vanilla|tbc|wrath|login","lv":N,"dir":"client|server",
+//!          "hdr":[..],"body":[..],"regions":[{"from":i,"to":j}],"msgcomp":bool}   (regions: 1-based,
+//!          inclusive, body-relative, holding the DECOMPRESSED payload)
+//! stdout: one verdict line per record:
+//!          {"id","name","exp","lv","dir","verdict":"ok|read_err|wrong_variant|consumed|bytes_differ|
+//!            write_err|second_cycle|payload_differs|panic","detail":..}
+//!
+//! The only logic here is framing glue for compressed payloads: a region is deflated with zlib to
+//! build the input, and the 2-byte (3-byte for large Wrath server frames) size field is recomputed
+//! for the deflated length.
+
+#[path = "generated/login_dispatch.rs"]
+mod login_dispatch;
+
+use crate::util::{bytes_of, guarded, hex, install_quiet_panic_hook};
+use flate2::write::ZlibEncoder;
+use flate2::Compression;
+use serde_json::{json, Value};
+use std::io::{BufRead, Cursor, Read, Write};
+
+pub struct Rt {
+    pub name: String,
+    pub consumed: u64,
+    pub out: Result<Vec<u8>, String>,
+    pub dbg: String,
+}
+
+macro_rules! rt_world {
+    ($ty:ty, $write:ident, $input:expr) => {{
+        let input: &[u8] = $input;
+        let mut cur = Cursor::new(input);
+        match <$ty>::read_unencrypted(&mut cur) {
+            Err(e) => Err(format!("{e:?}")),
+            Ok(m) => {
+                let consumed = cur.position();
+                let mut out = Vec::new();
+                let mut res = m.$write(&mut out).map(|_| out).map_err(|e| format!("{e:?}"));
+                // second decode/encode cycle (required for compressed payloads, cheap for all)
+                if let Ok(o) = &res {
+                    let mut c2 = Cursor::new(&o[..]);
+                    match <$ty>::read_unencrypted(&mut c2) {
+                        Err(e) => res = Err(format!("second cycle: decode of own output failed: {e:?}")),
+                        Ok(m2) => {
+                            let mut o2 = Vec::new();
+                            match m2.$write(&mut o2) {
+                                Err(e) => res = Err(format!("second cycle: write failed: {e:?}")),
+                                Ok(()) => {
+                                    if &o2 != o {
+                                        res = Err("second cycle: bytes differ".to_string());
+                                    }
+                                }
+                            }
+                        }
+                    }
+                }
+                let needs_dbg = match &res { Ok(o) => o.as_slice() != input, Err(_) => true };
+                let dbg: String = if needs_dbg { format!("{m:?}").chars().take(300).collect() } else { String::new() };
+                Ok(Rt { name: m.to_string(), consumed, out: res, dbg })
+            }
+        }
+    }};
+}
+
+pub fn roundtrip(exp: &str, lv: u64, dir: &str, input: &[u8]) -> Result<Rt, String> {
+    use wow_world_messages::{tbc, vanilla, wrath};
+    match (exp, dir) {
+        ("vanilla", "client") => rt_world!(vanilla::opcodes::ClientOpcodeMessage, write_unencrypted_client, input),
+        ("vanilla", "server") => rt_world!(vanilla::opcodes::ServerOpcodeMessage, write_unencrypted_server, input),
+        ("tbc", "client") => rt_world!(tbc::opcodes::ClientOpcodeMessage, write_unencrypted_client, input),
+        ("tbc", "server") => rt_world!(tbc::opcodes::ServerOpcodeMessage, write_unencrypted_server, input),
+        ("wrath", "client") => rt_world!(wrath::opcodes::ClientOpcodeMessage, write_unencrypted_client, input),
+        ("wrath", "server") => rt_world!(wrath::opcodes::ServerOpcodeMessage, write_unencrypted_server, input),
+        ("login", _) => login_dispatch::roundtrip(lv, dir == "client", input).map(|r| Rt {
+            name: r.name,
+            consumed: r.consumed,
+            out: r.out,
+            dbg: r.dbg,
+        }),
+        _ => Err(format!("unknown exp/dir {exp}/{dir}")),
+    }
+}
+
+fn deflate(data: &[u8]) -> Vec<u8> {
+    let mut e = ZlibEncoder::new(Vec::new(), Compression::default());
+    e.write_all(data).unwrap();
+    e.finish().unwrap()
+}
+
+fn inflate(data: &[u8]) -> Result<Vec<u8>, String> {
+    let mut d = flate2::read::ZlibDecoder::new(data);
+    let mut out = Vec::new();
+    d.read_to_end(&mut out).map_err(|e| e.to_string())?;
+    Ok(out)
+}
+
+pub struct Input {
+    pub bytes: Vec<u8>,
+    /// offset (in `bytes`) where the single compressed region starts, with its plain payload
+    pub region: Option<(usize, Vec<u8>)>,
+}
+
+/// hdr ++ body, with the (at most one) region deflated and the size field recomputed.
+pub fn build_input(rec: &Value) -> Result<Input, String> {
+    let hdr = bytes_of(&rec["hdr"]);
+    let body = bytes_of(&rec["body"]);
+    let regions = rec["regions"].as_array().cloned().unwrap_or_default();
+    if regions.is_empty() {
+        let mut b = hdr;
+        b.extend_from_slice(&body);
+        return Ok(Input { bytes: b, region: None });
+    }
+    if regions.len() != 1 {
+        return Err("more than one compressed region".into());
+    }
+    let from = regions[0]["from"].as_u64().unwrap() as usize;
+    let to = regions[0]["to"].as_u64().unwrap() as usize;
+    if to != body.len() {
+        return Err("compressed region does not extend to the end of the body".into());
+    }
+    let payload = body[from - 1..to].to_vec();
+    let mut nb = body[..from - 1].to_vec();
+    // an empty payload is sent as no bytes at all (see the CMSG_UPDATE_ACCOUNT_DATA vector)
+    if !payload.is_empty() {
+        nb.extend_from_slice(&deflate(&payload));
+    }
+    let exp = rec["exp"].as_str().unwrap_or("");
+    let dir = rec["dir"].as_str().unwrap_or("");
+    let mut out = Vec::new();
+    if exp == "login" {
+        out.extend_from_slice(&hdr);
+    } else {
+        let oplen = if dir == "client" { 4 } else { 2 };
+        let size = nb.len() + oplen;
+        let opcode = &hdr[hdr.len() - oplen..];
+        if exp == "wrath" && dir == "server" && size > 0x7FFF {
+            out.push(0x80 | (size >> 16) as u8);
+            out.push((size >> 8) as u8);
+            out.push(size as u8);
+        } else {
+            out.push((size >> 8) as u8);
+            out.push(size as u8);
+        }
+        out.extend_from_slice(opcode);
+    }
+    let hl = out.len();
+    out.extend_from_slice(&nb);
+    Ok(Input { bytes: out, region: Some((hl + from - 1, payload)) })
+}
+
+pub fn judge(rec: &Value) -> Value {
+    let name = rec["name"].as_str().unwrap_or("").to_string();
+    let exp = rec["exp"].as_str().unwrap_or("").to_string();
+    let dir = rec["dir"].as_str().unwrap_or("").to_string();
+    let lv = rec["lv"].as_u64().unwrap_or(0);
+    let base = |verdict: &str, detail: Value| {
+        json!({"id": rec["id"], "name": name, "exp": exp, "lv": lv, "dir": dir, "prof": rec["prof"],
+               "verdict": verdict, "detail": detail})
+    };
+    let input = match build_input(rec) {
+        Ok(i) => i,
+        Err(e) => return base("harness_unsupported", json!(e)),
+    };
+    let res = guarded(|| roundtrip(&exp, lv, &dir, &input.bytes));
+    match res {
+        Err(p) => base("panic", json!({"panic": p, "input": hex(&input.bytes)})),
+        Ok(Err(e)) => base("read_err", json!({"error": e, "input": hex(&input.bytes)})),
+        Ok(Ok(rt)) => {
+            if rt.name != name {
+                return base("wrong_variant", json!({"decoded_as": rt.name, "input": hex(&input.bytes)}));
+            }
+            if rt.consumed as usize != input.bytes.len() {
+                return base(
+                    "consumed",
+                    json!({"consumed": rt.consumed, "len": input.bytes.len(), "input": hex(&input.bytes)}),
+                );
+            }
+            match rt.out {
+                Err(e) => {
+                    let v = if e.starts_with("second cycle") { "second_cycle" } else { "write_err" };
+                    base(v, json!({"error": e, "input": hex(&input.bytes), "decoded": rt.dbg}))
+                }
+                Ok(out) => match &input.region {
+                    None => {
+                        if out == input.bytes {
+                            base("ok", Value::Null)
+                        } else {
+                            base(
+                                "bytes_differ",
+                                json!({"input": hex(&input.bytes), "output": hex(&out), "decoded": rt.dbg}),
+                            )
+                        }
+                    }
+                    Some((start, payload)) => {
+                        // equality is required of the decompressed payload (and of the second cycle,
+                        // checked inside roundtrip); bytes before the region must be equal except
+                        // for the size field, which depends on the deflater.
+                        if out.len() < *start {
+                            return base("bytes_differ", json!({"input": hex(&input.bytes), "output": hex(&out)}));
+                        }
+                        let got = if out.len() == *start { Ok(Vec::new()) } else { inflate(&out[*start..]) };
+                        match got {
+                            Err(e) => base("payload_differs", json!({"inflate_error": e, "output": hex(&out)})),
+                            Ok(p) => {
+                                let sz = if exp == "login" { 0 } else if out[0] & 0x80 != 0 && exp == "wrath" && dir == "server" { 3 } else { 2 };
+                                let isz = if exp == "login" { 0 } else if input.bytes[0] & 0x80 != 0 && exp == "wrath" && dir == "server" { 3 } else { 2 };
+                                if &p != payload {
+                                    base("payload_differs", json!({"expected": hex(payload), "observed": hex(&p)}))
+                                } else if out[sz..*start - isz + sz] != input.bytes[isz..*start] {
+                                    base("bytes_differ", json!({"input": hex(&input.bytes), "output": hex(&out), "note": "prefix before compressed region"}))
+                                } else {
+                                    base("ok", Value::Null)
+                                }
+                            }
+                        }
+                    }
+                },
+            }
+        }
+    }
+}
+
 pub fn run(_args: &[String]) -> i32 {
-    eprintln!("codec: not built yet");
-    2
+    install_quiet_panic_hook();
+    let stdin = std::io::stdin();
+    let stdout = std::io::stdout();
+    let mut w = std::io::BufWriter::new(stdout.lock());
+    let (mut n, mut ok) = (0u64, 0u64);
+    for line in stdin.lock().lines() {
+        let line = match line {
+            Ok(l) => l,
+            Err(_) => break,
+        };
+        if line.trim().is_empty() {
+            continue;
+        }
+        let rec: Value = match serde_json::from_str(&line) {
+            Ok(v) => v,
+            Err(e) => {
+                eprintln!("bad record: {e}");
+                return 2;
+            }
+        };
+        if rec["kind"] != "codec" {
+            continue;
+        }
+        n += 1;
+        // progress marker: lets the supervisor resume after the record that kills the process
+        writeln!(w, "@{n}").unwrap();
+        w.flush().unwrap();
+        let v = judge(&rec);
+        if v["verdict"] == "ok" {
+            ok += 1;
+        } else {
+            writeln!(w, "{v}").unwrap();
+        }
+    }
+    writeln!(w, "{}", json!({"summary": {"records": n, "ok": ok}})).unwrap();
+    0
 }
